@@ -35,9 +35,11 @@ def run(rep):
     results = base.run_obligations(rep, obls)
     cands = [c for x in results for c in x["cands"]]
     if cands:
+        from . import c11
         a = pp.confirm_kadj(rep, results, "C07")
+        r_ = c11.confirm_rounding(rep, results)
         b = pp.run_panic_grid(rep)
-        if not (a or b):
+        if not (a or b or r_):
             rep.inconclusive.append("solver-found panic paths were not reproduced natively; first: %r" % (cands[0],))
     rep.samples = [{"obligation": o["name"], "status": o["status"], "paths": o.get("paths")} for o in rep.obligations[:6]]
 
